@@ -151,7 +151,7 @@ CHECKS = {
     },
     "C17": {
         "level": "fault_enumeration",
-        "units": [unit("c17-keyproof", "keyproof", ["zz_verif_c17_test.go"], "^TestVerifC17", shards={"quick": 8, "thorough": 8})],
+        "units": [unit("c17-keyproof", "keyproof", ["zz_verif_c17_test.go", "zz_verif_c17_forgery_test.go"], "^TestVerifC17", shards={"quick": 8, "thorough": 8})],
         "assumptions": ["statistical soundness (2^-80) of the iterated proofs is not decidable by enumeration; what is decided: every iteration is really checked, the relation checked equals an independently written one on toy moduli, every leaf of every component is bound to the challenge"],
     },
     "_FIX": {
